@@ -796,6 +796,10 @@ class Values:
             return V(("excattr", attr))
         if k == "instdict":
             return V(("contmeth", attr, a))
+        if k == "libmod":
+            mod = self.pkg.modules.get(a[1])
+            if mod is not None:
+                return self.global_value(self.pkg.resolve_global(mod, attr), attr)
         if k == "stdlibmod":
             return V(("stdlib", f"{a[1]}.{attr}"))
         if k == "builtinmod":
